@@ -2,6 +2,7 @@ import MimicProofs.Script
 import Mimic.Reply
 import MimicProofs.Reply
 import MimicProofs.Wire
+import MimicProofs.PacketsCode
 /-!
 # C03 — Every command gets exactly one complete, well-formed response (lockstep)
 
@@ -414,5 +415,34 @@ theorem packet_kinds_distinct (o : Ok) (e : Eof) (r : Err) (s : Bytes) (trans : 
         · rename_i h1 h2 h3
           rw [if_neg h1, if_neg h2, if_neg h3]
           simp [leN_length]
+
+/-! ### the code's own packet builders (translated from `packets.py` on every run) -/
+
+open Mimic.Extracted.PacketsCode Mimic.Reply in
+/-- **`make_ok`, `make_eof`, `make_error` and `make_column_definition_41` as translated from the source are the
+    model's encoders**, for every argument (capability bit 9 = CLIENT_PROTOCOL_41, 13 = CLIENT_TRANSACTIONS) -/
+theorem reply_builders_are_code (caps st a l w fl code : Nat) (eof : Bool) (msg sc tb ot nm on : Mimic.Py.Bytes) (cs ln ty fg dc : Nat)
+    (isfl : Bool) (df : Option Mimic.Py.Bytes) (hdf : ∀ d, df = some d → d ≠ []) :
+    make_ok caps st eof a l w fl = encOk (Mimic.Py.hasBit caps 9) (Mimic.Py.hasBit caps 13) ⟨eof, a, l, st ||| fl, w⟩ ∧
+    make_eof caps st w fl = encEof (Mimic.Py.hasBit caps 9) ⟨w, st ||| fl⟩ ∧
+    make_error caps msg code = encErr (Mimic.Py.hasBit caps 9) ⟨code, get_sqlstate code, msg⟩ ∧
+    make_column_definition_41 sc tb ot nm on cs ln ty fg dc isfl df =
+      encColDef ⟨sc, tb, if ot = [] then tb else ot, nm, if on = [] then nm else on, cs, ln, ty, fg, dc, if isfl then some df else none⟩ :=
+  ⟨MimicProofs.PacketsCode.make_ok_eq caps st eof a l w fl, MimicProofs.PacketsCode.make_eof_eq caps st w fl,
+   MimicProofs.PacketsCode.make_error_eq caps msg code (MimicProofs.PacketsCode.sqlstate_five code),
+   MimicProofs.PacketsCode.make_coldef_eq sc tb ot nm on cs ln ty fg dc isfl df hdf⟩
+
+open Mimic.Extracted.PacketsCode Mimic.Reply in
+/-- **what the code writes as an OK / ERR packet, a 4.1 client reads back** (composition of the translation
+    equivalence with the round-trip theorems) -/
+theorem code_ok_err_roundtrip (caps st a l w fl code : Nat) (eof : Bool) (msg : Mimic.Py.Bytes) (h41 : Mimic.Py.hasBit caps 9 = true)
+    (h1 : a < 2 ^ 64) (h2 : l < 2 ^ 64) (h3 : st ||| fl < 2 ^ 16) (h4 : w < 2 ^ 16) (h5 : code < 2 ^ 16) :
+    decOk (make_ok caps st eof a l w fl) = some ⟨eof, a, l, st ||| fl, w⟩ ∧
+    decErr (make_error caps msg code) = some ⟨code, get_sqlstate code, msg⟩ := by
+  constructor
+  · rw [MimicProofs.PacketsCode.make_ok_eq, h41]
+    exact ok_roundtrip _ ⟨eof, a, l, st ||| fl, w⟩ h1 h2 h3 h4
+  · rw [MimicProofs.PacketsCode.make_error_eq caps msg code (MimicProofs.PacketsCode.sqlstate_five code), h41]
+    exact err_roundtrip ⟨code, get_sqlstate code, msg⟩ h5 (MimicProofs.PacketsCode.sqlstate_five code)
 
 end MimicProps.C03
